@@ -285,6 +285,7 @@ structure Handle where
   inOrder : Bool
   creator : Nat
   collapseAlways : Bool
+  collapseOnError : Bool
 
 /-- heap and the number of creator tokens handed out so far -/
 structure World where
@@ -294,9 +295,9 @@ structure World where
 def heightOf (H : Heap) (root : Nat) : Nat := hHeight H (H.size + 1) root
 
 /-- `BTree(t=…)` -/
-def newTree (w : World) (t : Nat) (io ca : Bool) : World × Handle :=
+def newTree (w : World) (t : Nat) (io ca : Bool) (ce : Bool := false) : World × Handle :=
   let (H, r) := alloc w.heap { creator := w.nextCreator, leaf := true, elts := [], kids := [] }
-  ({ heap := H, nextCreator := w.nextCreator + 1 }, ⟨t, r, 0, false, io, w.nextCreator, ca⟩)
+  ({ heap := H, nextCreator := w.nextCreator + 1 }, ⟨t, r, 0, false, io, w.nextCreator, ca, ce⟩)
 
 /-- `BTree(original=…)`: a fresh creator token, the same root pointer -/
 def cloneTree (w : World) (o : Handle) (io : Bool) : Option (World × Handle) :=
@@ -344,7 +345,10 @@ def Handle.delete (w : World) (h : Handle) (key : Nat) (exact : Option Elt) :
     match hDeleteRoot h.collapseAlways h.t w.heap h.creator h.root key exact with
     | (H, r, .ok old) =>
       ({ w with heap := H }, { h with root := r, size := if old.isSome then h.size - 1 else h.size }, .ok old)
-    | (H, r, .valueError) => ({ w with heap := H }, { h with root := r }, .valueError)
+    | (H, r, .valueError) =>
+      let s := rd H r
+      let r' := if h.collapseOnError && s.elts.isEmpty && !s.leaf && !s.kids.isEmpty then kidA s.kids 0 else r
+      ({ w with heap := H }, { h with root := r' }, .valueError)
     | (H, r, .indexError) => ({ w with heap := H }, { h with root := r }, .indexError)
 
 def Handle.get (w : World) (h : Handle) (key : Nat) : Option Elt :=
@@ -429,7 +433,8 @@ def refStep (ts : List Tree) : Op → List Tree
     | some tr => ts.set i tr.makeImmutable
 
 /-- the persistent tree a handle denotes -/
-def Handle.toTree (w : World) (h : Handle) : Tree := ⟨h.t, h.abs w, h.size, h.immutable, h.inOrder, h.collapseAlways⟩
+def Handle.toTree (w : World) (h : Handle) : Tree :=
+  ⟨h.t, h.abs w, h.size, h.immutable, h.inOrder, h.collapseAlways, h.collapseOnError⟩
 
 /-- the abstraction of a session -/
 def Sess.abs (s : Sess) : List Tree := s.hs.map (Handle.toTree s.w)
